@@ -10,7 +10,8 @@ LEVEL = "model_checking"
 
 
 def syntax_part(ck, specs_file):
-    ck.run_sharded("syntax-mutants", specs_file, "tla/mutants.ndjson", timeout=1800)
+    if specs_file:
+        ck.run_sharded("syntax-mutants", specs_file, "tla/mutants.ndjson", timeout=1800)
     muts = {m["id"]: m for m in vp.read_ndjson(os.path.join(ck.work, "tla", "mutants.ndjson"))}
     r = ck.tlc("SyntaxErr", timeout=3000)
     if not r.ok:
@@ -25,13 +26,14 @@ def syntax_part(ck, specs_file):
             ck.violation("%s (%s): %s; parser: %s | ast: %s | spec: %s" %
                          (m["text"].replace("\n", " ")[:160], m["mut"], where,
                           m["p"]["msg"][:70] or "ok", m["a"]["msg"][:70] or "ok", m["s"]["msg"][:70] or "ok"),
-                         {"property": "C20", "kind": "syntax", "text": m["text"], "kinds": m["kinds"], "pos": m["pos"]})
+                         {"property": "C20", "kind": "syntax", "text": m["text"], "kinds": m["kinds"], "pos": m["pos"], "lens": m["lens"]})
     return r, len(muts)
 
 
 def lexical_part(ck, specs_file):
     lx.determinise(ck)
-    ck.run_sharded("lexical-mutants", specs_file, "tla/fronts.ndjson", timeout=1800)
+    if specs_file:
+        ck.run_sharded("lexical-mutants", specs_file, "tla/fronts.ndjson", timeout=1800)
     recs = {a["id"]: a for a in vp.read_ndjson(os.path.join(ck.work, "tla", "fronts.ndjson"))}
     r = ck.tlc("FrontEndCheck", timeout=3000)
     if not r.ok:
@@ -61,7 +63,15 @@ def run(ck):
     lc.doc_table(ck)
     if ck.args.replay:
         rp = json.load(open(ck.args.replay))
-        raise vp.Infra("C20 replay: feed the text of the replay file to `emerge`; the check re-derives all mutants from the generator")
+        # the one recorded text is run through the real entry points again and judged by the same TLC check
+        if rp.get("kind") == "front-end":
+            ck.run_harness(["replay-one", "-in", os.path.abspath(ck.args.replay), "-out", "tla/fronts.ndjson"])
+            lexical_part(ck, None)
+        else:
+            ck.run_harness(["replay-one", "-in", os.path.abspath(ck.args.replay), "-out", "tla/mutants.ndjson"])
+            syntax_part(ck, None)
+        ck.sample({"replayed": rp["text"]})
+        return ck.finish()
     lc.gen_specs(ck, {"K": 3, "MaxSize": 3, "ShareSize": 1}, drop=("F3",))
     path = os.path.join(ck.work, "tla", "gen_specs.ndjson")
     rows = vp.read_ndjson(path)
